@@ -38,11 +38,7 @@ Definition model_evaluate_string_annotation (s : list ascii) : res cty :=
 
 Definition model_types (r : rend) (flat : list (string * fdecl)) (chain : list (list (string * fdecl)))
   : res (list (string * cty)) :=
-  let decls := if r.(r_chain) then chain_fields chain else chain_fields [flat] in
-  mapM (fun kv =>
-          bind (resolve_gen r.(r_postponed) (fkind_eqb (f_kind (snd kv)) KInitVar) (render r.(r_sp) (f_ty (snd kv))))
-               (fun o => Ok (fst kv, canon o)))
-       (wrapper_fields_gen decls).
+  field_types_gen r.(r_sp) r.(r_postponed) (if r.(r_chain) then chain_fields chain else chain_fields [flat]).
 
 Definition decl_eqb (a b : string * fdecl) : bool :=
   String.eqb (fst a) (fst b) && cty_eqb (f_ty (snd a)) (f_ty (snd b)) && fkind_eqb (f_kind (snd a)) (f_kind (snd b))
